@@ -3,14 +3,14 @@ from checks.tsutil import *
 
 ID = 'C11'
 RULE = ('one case = a real datacake_node::Clock actor on a multi-threaded tokio runtime with the wall clock injected (hook H1), and 1-6 phases; in each phase the wall reading is fixed '
-        '(advanced, stalled, or moved BACKWARDS between phases) and 1-32 tasks concurrently make 1-200 calls each, mixing get_time with register_ts of remote stamps around the wall '
+        '(advanced, stalled, or moved BACKWARDS between phases - by any amount, also beyond the drift limit of 4100 s, D34) and 1-32 tasks concurrently make 1-200 calls each, mixing get_time with register_ts of remote stamps around the wall '
         '(behind, at, within/at/beyond the drift); the processed-event log recorded by hook H3 (kind, input, clock after) is replayed event by event through the Lean model (clk-replay), '
         'plus burst cases: a fresh clock on a current-thread runtime with a backlog of 0..2500 enqueued get_time requests (around the queue capacity 1000) when a remote stamp is registered; high-counter cases: remote stamps ahead of the wall (up to exactly the drift limit) with counter 65000..65535 - the back-pressure region and the EXHAUSTED counter - each followed by 1-12 requests, enough to run the clock\'s own counter over u16::MAX (D19); real nodes (realclock): a stamp registered with the clock of one node, then - all logical clocks pinned ahead of the wall - thousands of stamps that differ only in the counter, must become visible through gossip to the clock every other node hands out; ' 'and the python oracle checks the property on what the callers saw: all replies pairwise distinct, each task strictly increasing, every get_time after an accepted register_ts greater than it; '
         'non-trivial = at least 2 tasks and at least one accepted registration; distinct by hash')
 ASSUMPTIONS = ['flume channel is FIFO with a single consumer; a oneshot reply reaches the caller that asked (runtime facts, observed here, not proved)',
                'wall clock injected and constant within a phase, so that the log can be replayed exactly']
 TRUSTED_BASE = ['correspondence: dcharness (real Clock actor, 2 worker threads) vs dcdriver (Datacake.Ts.send/recv folded over the actor log); hooks H1 (wall clock) and H3 (clock event log)']
-THEOREM_NOTE = 'Datacake.Clock.onGet/onRegister/run (Model/Clock.lean) over Datacake.Ts.send/recv; theorems (about Clock.run, the function the driver replays the actor log through) replies_strictly_increasing, per_task_increasing, after_register_greater (no condition on counters; remote strictly inside the drift), register_takes_effect, legacy_drops_registration'
+THEOREM_NOTE = 'Datacake.Clock.onGet/onRegister/run (Model/Clock.lean) over Datacake.Ts.send/recv; theorems (about Clock.run, the function the driver replays the actor log through) replies_strictly_increasing, per_task_increasing, after_register_greater (no condition on counters; remote strictly inside the drift), register_takes_effect, onGet_total (a Get is answered whatever the wall clock reads), following_spec, legacy_drops_registration, d19_get_dies_on_drift'
 PROCESS_PER_CASE = False
 JOBS = 4
 SHRINK = False
